@@ -85,13 +85,20 @@ def run_check(fam, tier, seed):
     ob = property_obligations(pid) if b['ok'] else dict(ok=False, theorems=[], examples=[], assumptions={}, axioms=[],
                                                         raw=b['log'][-3000:])
     proof_ok = b['ok'] and ob['ok']
+    chk = None
+    if tier == 'thorough' and proof_ok:
+        chk = coqchk(pid)
+        if not chk['ok']:
+            proof_ok = False
     model_ok = all(not f.endswith(tuple(t[:-3] for t in fam.targets)) for f in b['failed']) if not b['ok'] else True
     # model files must be compiled for the correspondence to run at all
     n_gen = fam.budget(tier)
     corpus = [c['case'] if 'case' in c else c for c in corpus_cases(pid)]
     cases = corpus + [fam.gen(rng, i, tier) for i in range(n_gen)]
     broken = []            # names of proofs / correspondences that no longer check
-    if not proof_ok:
+    if chk is not None and not chk['ok']:
+        broken.append('coqchk: ' + chk['summary'][:300])
+    elif not proof_ok:
         broken.append('proof: ' + (', '.join(b['failed']) or f'Properties/{pid}.v') +
                       ('' if b['translator_ok'] else ' (translator refused: ' + b['translator_msg'][:300] + ')'))
     recs, merr, ierr = evaluate(fam, cases)
@@ -153,7 +160,7 @@ def run_check(fam, tier, seed):
         checker_cmd=f"coq_makefile -f _CoqProject -o Makefile && make (coqc 8.16.1, full .vo build) ; coqc theories/Properties/{pid}.v",
         trusted_base=TRUSTED_BASE + [f'model files tied by correspondence: {", ".join(fam.targets)}'],
         theorems=ob['theorems'], nonvacuity_examples=ob.get('examples', []), assumptions=ob['assumptions'], axioms=ob['axioms'],
-        translator=b['translator_msg'],
+        translator=b['translator_msg'], coqchk=(chk['summary'] if chk else 'not run in this tier (thorough runs coqchk -o on the property file and its dependencies)'),
         evaluations=len(recs) + searched, distinct_nontrivial=len(distinct),
         rule=fam.rule, samples=samples, corpus_cases=len(corpus),
         traces_validated_against_impl=sum(1 for r in recs if r.get('tie_ok')),
